@@ -354,11 +354,36 @@ class ConnectHeaders(Headers):
     validate_difficulty = True
 
     def get_next_block_target(self, max_target, previous, current):
+        # the retarget rule is computed from the two headers before the one being validated: for the first header of a chunk both
+        # come from the store, and must be what is stored NOW (a reorganisation may just have replaced them)
+        start = CHUNK_START[0]
+        if previous is not None and current is not None and start is not None and current['block_height'] == start - 1:
+            now = self.deserialize(start - 2, self._read(start - 2))
+            if not same_header(previous, now):
+                STALE[0] = True
         return ArithUint256(self.max_target)
+
+    async def validate_chunk(self, height, chunk):
+        CHUNK_START[0] = height
+        try:
+            return await Headers.validate_chunk(self, height, chunk)
+        finally:
+            CHUNK_START[0] = None
 
     @classmethod
     def get_proof_of_work(cls, header_hash):
         return ENV[0].proof_of_work(header_hash)
+
+
+CHUNK_START = [None]
+STALE = [False]
+
+
+def same_header(a, b):
+    pa, pb = a['prev_block_hash'], b['prev_block_hash']
+    if isinstance(pa, PTok) or isinstance(pb, PTok):
+        return isinstance(pa, PTok) and isinstance(pb, PTok) and (pa.space, pa.i) == (pb.space, pb.i)
+    return a == b
 
 
 def connect_batch(vm, s, d, m, chunk_size, split):
@@ -377,6 +402,10 @@ def connect_batch(vm, s, d, m, chunk_size, split):
                 vm.assume(not flag)
     h, batch = env.make_connect(vm, s, start, m, chunk_size)
     olds = [h._read(i) for i in range(s)]
+    STALE[0] = False
+    if vm.pick('stored_headers_were_read_before', 2):
+        for i in range(s):                                       # any earlier reader: the wallet looks headers up all the time
+            vm.await_(h.get(i))
     calls = [(start, 0, m)] if split is None else [(start, 0, split), (start + split, split, m)]
     added = 0
     for at, a, b in calls:
@@ -403,6 +432,8 @@ def connect_batch(vm, s, d, m, chunk_size, split):
             return 'VIOLATION: a stored header below the connection point changed'
     if len(h) < s:
         return 'VIOLATION: the chain became shorter'
+    if STALE[0]:
+        return 'VIOLATION: a header was validated against a predecessor that is no longer the stored one (stale after a reorganisation)'
     return 'ok-stored' if first_bad == m else 'ok-refused'
 
 
@@ -691,7 +722,8 @@ def jobs(tier):
                             args=(n, start, cut), loop_bound=400, max_depth=60, cost=10 * n,
                             bounds=dict(stored_headers=n, checked_above=0 if cut else start, torn_bytes=cut,
                                         links='one symbolic boolean per header')))
-    shapes = [(3, 0, 3, 10 ** 16, None), (3, 0, 4, 2, None), (4, 1, 3, 2, None), (3, 0, 4, 10 ** 16, 2), (5, 2, 4, 3, 1)] \
+    shapes = [(3, 0, 3, 10 ** 16, None), (3, 0, 4, 2, None), (4, 1, 3, 2, None), (3, 0, 4, 10 ** 16, 2), (5, 2, 4, 3, 1), (5, 2, 4, 10 ** 16, 3),
+              (5, 2, 5, 3, None)] \
         if tier == 'quick' else \
         [(s, d, m, cs, sp) for s in (3, 5) for d in (0, 1, 2) for m in (3, 5) for cs in (10 ** 16, 2, 3) for sp in (None, 1, 2)]
     for s, d, m, cs, sp in shapes:
